@@ -58,13 +58,14 @@ Fixpoint reset_run (m : list (bytes * bytes)) (l : list stat) : list stat :=
 Definition hardlink_reset (l : list stat) : list stat := reset_run [] l.
 
 (* ---- well-formed input of the reset filter: a sub-sequence of a canonical walk ----
-   paths are distinct; a link name is never the path of a link member, and if the
+   paths are distinct and non-empty; a link name is never the path of a link member, and if the
    entry it names is in the listing at all it is an EARLIER plain non-link entry. *)
 Fixpoint wf_links_from (before : list stat) (l : list stat) : bool :=
   match l with
   | [] => true
   | s :: r =>
     negb (existsb (fun b => bytes_eqb (st_path b) (st_path s)) before)
+    && negb (bytes_eqb (st_path s) [])
     && (if hl_plain s && has_link s then
           negb (bytes_eqb (st_linkname s) (st_path s))
           && forallb (fun b => negb (bytes_eqb (st_path b) (st_linkname s))
@@ -75,3 +76,23 @@ Fixpoint wf_links_from (before : list stat) (l : list stat) : bool :=
   end.
 
 Definition wf_links (l : list stat) : bool := wf_links_from [] l.
+
+(* ---- declarative description of the reset's result ----
+   source of a plain entry = the path its group is named after *)
+Definition orig_rep (s : stat) : bytes := match st_linkname s with [] => st_path s | l => l end.
+
+(* path of the first plain entry of the listing whose group is named k *)
+Fixpoint first_rep (l : list stat) (k : bytes) : option bytes :=
+  match l with
+  | [] => None
+  | s :: r => if hl_plain s && bytes_eqb (orig_rep s) k then Some (st_path s) else first_rep r k
+  end.
+
+(* every plain entry ends up pointing at (or being) the first kept member of its group *)
+Definition reset_spec_entry (whole : list stat) (s : stat) : stat :=
+  if negb (hl_plain s) then s
+  else match first_rep whole (orig_rep s) with
+       | Some r => if bytes_eqb r (st_path s) then set_linkname s [] else set_linkname s r
+       | None => s
+       end.
+Definition reset_spec (l : list stat) : list stat := map (reset_spec_entry l) l.
